@@ -118,6 +118,17 @@ def plainOf (r : Rd) (w : Bytes) : Bytes := if r.masked then xorSpec w r.mask r.
 theorem plainOf_length (r : Rd) (w : Bytes) : (plainOf r w).length = w.length := by
   unfold plainOf xorSpec; split <;> simp
 
+/-- the frame stack stands before `wire` (the rest of a frame's payload), `rest` follows it — whether or
+    not the reader has installed the frame as its current one (a control frame handed to OnIntermediate
+    is not) -/
+structure InFrame0 (r : Rd) (s : Src) (wire rest : Bytes) : Prop where
+  noU : r.utf8on = false
+  bytes : s.bytes = wire ++ rest
+  n : r.rawN = wire.length
+  wf : Bytes.WF s.bytes
+  mwf : r.mask.WF
+  tame : Src.Tame s
+
 /-- the reader is inside a frame whose remaining wire payload is `wire`; `rest` follows it -/
 structure InFrame (r : Rd) (s : Src) (wire rest : Bytes) : Prop where
   has : r.hasFrame = true
@@ -144,7 +155,7 @@ def ioErrOf (e : Option Fin) (left : Nat) : Option RErr :=
     caller buffer): it hands out the unmasked next `g` bytes of the frame (g may be 0 for an empty
     transport chunk), removes exactly those from the transport, never reports a clean EOF before
     the frame is complete and never an error at all while the transport has the bytes. -/
-theorem frameRead_inframe (r : Rd) (s : Src) (wire rest : Bytes) (k : Nat) (h : InFrame r s wire rest)
+theorem frameRead_inframe0 (r : Rd) (s : Src) (wire rest : Bytes) (k : Nat) (h : InFrame0 r s wire rest)
     (hk : 0 < k) (hn : 0 < wire.length) :
     ∃ g e s1, r.frameRead s k = some (plainOf r (wire.take g), g, e, adv r g, s1)
       ∧ g ≤ wire.length ∧ s1.bytes = wire.drop g ++ rest ∧ mu s1 < mu s ∧ Src.Tame s1
@@ -219,6 +230,13 @@ theorem adv_zero_fields (r : Rd) : (adv r 0) = r := by
   unfold adv; cases r; simp
 
 /-- the frame is exhausted (or empty): the frame stack reports io.EOF without touching the transport -/
+theorem frameRead_inframe (r : Rd) (s : Src) (wire rest : Bytes) (k : Nat) (h : InFrame r s wire rest)
+    (hk : 0 < k) (hn : 0 < wire.length) :
+    ∃ g e s1, r.frameRead s k = some (plainOf r (wire.take g), g, e, adv r g, s1)
+      ∧ g ≤ wire.length ∧ s1.bytes = wire.drop g ++ rest ∧ mu s1 < mu s ∧ Src.Tame s1
+      ∧ (g < wire.length → e = none) ∧ (e = none ∨ e = some .eof) :=
+  frameRead_inframe0 r s wire rest k ⟨h.noU, h.bytes, h.n, h.wf, h.mwf, h.tame⟩ hk hn
+
 theorem frameRead_done (r : Rd) (s : Src) (k : Nat) (h0 : r.rawN = 0) (hu : r.utf8on = false) (hm : r.mask.WF) :
     r.frameRead s k = some ([], 0, some .eof, r, s) := by
   unfold Rd.frameRead Rd.rawRead
@@ -614,16 +632,16 @@ structure Common (skip : Bool) (st maxF : Nat) (r : Rd) (s : Src) : Prop where
   stClr : stIs (stClear st stFragmented) stFragmented = false
 
 /-- where the reader stands inside a message whose remaining expected output is the last index -/
-inductive Sync (ao skip : Bool) (st maxF : Nat) (rest : Bytes) : Rd → Src → Bytes → Prop
+inductive Sync (ao skip : Bool) (st maxF : Nat) (rest : Bytes) : Rd → Src → Bytes → List WFrame → Prop
   | mid (r : Rd) (s : Src) (wire : Bytes) (fs : List WFrame) : Common skip st maxF r s →
       InFrame r s wire (encodeFs fs ++ rest) → r.state = st → Tail ao skip st maxF fs →
-      Sync ao skip st maxF rest r s (plainOf r wire ++ dataPlain fs)
+      Sync ao skip st maxF rest r s (plainOf r wire ++ dataPlain fs) fs
   | lastFrame (r : Rd) (s : Src) (wire : Bytes) : Common skip st maxF r s →
       InFrame r s wire rest → r.state = stClear st stFragmented →
-      Sync ao skip st maxF rest r s (plainOf r wire)
+      Sync ao skip st maxF rest r s (plainOf r wire) []
   | between (r : Rd) (s : Src) (fs : List WFrame) : Common skip st maxF r s →
       r.hasFrame = false → r.state = st → s.bytes = encodeFs fs ++ rest → Tail ao skip st maxF fs →
-      Sync ao skip st maxF rest r s (dataPlain fs)
+      Sync ao skip st maxF rest r s (dataPlain fs) fs
 
 def weight (r : Rd) (s : Src) : Nat := mu s + (if r.hasFrame then 1 else 0)
 
@@ -669,15 +687,15 @@ theorem common_of (skip st maxF) {r : Rd} {s : Src} (c : Common skip st maxF r s
 
 /-- **One Read from inside a frame of an open or closing message.** -/
 theorem step_inframe (ao skip : Bool) (st maxF : Nat) (rest : Bytes) (r : Rd) (s : Src) (cx : Ctx) (cb : Option Callback)
-    (k : Nat) (hk : 0 < k) (rem : Bytes)
-    (hs : (∃ wire fs, Common skip st maxF r s ∧ InFrame r s wire (encodeFs fs ++ rest) ∧ r.state = st
+    (k : Nat) (hk : 0 < k) (rem : Bytes) (fs : List WFrame)
+    (hs : (∃ wire, Common skip st maxF r s ∧ InFrame r s wire (encodeFs fs ++ rest) ∧ r.state = st
               ∧ Tail ao skip st maxF fs ∧ rem = plainOf r wire ++ dataPlain fs)
-          ∨ (∃ wire, Common skip st maxF r s ∧ InFrame r s wire rest ∧ r.state = stClear st stFragmented
+          ∨ (fs = [] ∧ ∃ wire, Common skip st maxF r s ∧ InFrame r s wire rest ∧ r.state = stClear st stFragmented
               ∧ rem = plainOf r wire)) :
     ∃ bytes e r' s', r.read s cx k cb = some (bytes, bytes.length, e, r', s', cx) ∧ mu s' ≤ mu s ∧
-      ((e = none ∧ ∃ rem', rem = bytes ++ rem' ∧ Sync ao skip st maxF rest r' s' rem' ∧ weight r' s' < weight r s)
-       ∨ (e = some .eof ∧ rem = bytes ∧ s'.bytes = rest ∧ Src.Tame s' ∧ Done st r r')) := by
-  rcases hs with ⟨wire, fs, hc, hin, hst, htail, hrem⟩ | ⟨wire, hc, hin, hst, hrem⟩
+      ((e = none ∧ ∃ rem', rem = bytes ++ rem' ∧ Sync ao skip st maxF rest r' s' rem' fs ∧ weight r' s' < weight r s)
+       ∨ (e = some .eof ∧ rem = bytes ∧ s'.bytes = rest ∧ Src.Tame s' ∧ Done st r r' ∧ fs = [])) := by
+  rcases hs with ⟨wire, hc, hin, hst, htail, hrem⟩ | ⟨hfs, wire, hc, hin, hst, hrem⟩
   · -- a non-final fragment
     have hfrag : r.fragmented = true := by simp [Rd.fragmented, hst, hc.stF]
     obtain ⟨g, s1, hg, hb, htame, hwf1, hmu, hsame, hread⟩ :=
@@ -711,6 +729,7 @@ theorem step_inframe (ao skip : Bool) (st maxF : Nat) (rest : Bytes) (r : Rd) (s
         simp only [Rd.resetFragment, hin.has, if_true, Bool.false_eq_true, if_false]
         omega
   · -- the final fragment
+    subst hfs
     have hfrag : r.fragmented = false := by simp [Rd.fragmented, hst, hc.stClr]
     obtain ⟨g, s1, hg, hb, htame, hwf1, hmu, hsame, hread⟩ :=
       read_inframe r s cx cb wire rest k hin hk (Or.inl hc.u8)
@@ -732,7 +751,7 @@ theorem step_inframe (ao skip : Bool) (st maxF : Nat) (rest : Bytes) (r : Rd) (s
         simp only [if_true]; omega
     · have hfr2 : (adv r g).fragmented = false := by simp [Rd.fragmented, a4, hst, hc.stClr]
       simp only [afterFrame, hfr2, Bool.false_eq_true, if_false] at hrd
-      refine ⟨_, some .eof, (adv r g).reset, s1, by rw [hlen]; exact hrd, hmule, Or.inr ⟨rfl, ?_, ?_, htame, ?_⟩⟩
+      refine ⟨_, some .eof, (adv r g).reset, s1, by rw [hlen]; exact hrd, hmule, Or.inr ⟨rfl, ?_, ?_, htame, ?_, rfl⟩⟩
       · rw [hrem, heq, plainOf_take_all]
       · rw [hb, heq]; simp
       · exact ⟨by simp [Rd.reset], by simp [Rd.reset, a4, hst], by simp [Rd.reset], by simp [Rd.reset],
@@ -780,21 +799,27 @@ structure AtEnd (ao skip : Bool) (st maxF : Nat) (rest : Bytes) (r : Rd) (s : Sr
     smaller transport; or it returns the last piece together with io.EOF, the transport standing
     exactly behind the message and the reader reset. No other outcome exists. -/
 theorem step (ao skip : Bool) (st maxF : Nat) (rest : Bytes) (r : Rd) (s : Src) (cx : Ctx) (k : Nat) (hk : 0 < k)
-    (rem : Bytes) (hs : Sync ao skip st maxF rest r s rem) :
+    (rem : Bytes) (fs0 : List WFrame) (hs : Sync ao skip st maxF rest r s rem fs0) :
     (∃ bytes e r' s', r.read s cx k none = some (bytes, bytes.length, e, r', s', cx) ∧
-      ((e = none ∧ ∃ rem', rem = bytes ++ rem' ∧ Sync ao skip st maxF rest r' s' rem' ∧ weight r' s' < weight r s)
+      ((e = none ∧ ∃ rem' fs', rem = bytes ++ rem' ∧ Sync ao skip st maxF rest r' s' rem' fs' ∧ weight r' s' < weight r s)
        ∨ (e = some .eof ∧ rem = bytes ∧ s'.bytes = rest ∧ Src.Tame s' ∧ Done st r r')))
     ∨ AtEnd ao skip st maxF rest r s rem := by
   cases hs with
-  | mid wire fs hc hin hst htail =>
-    obtain ⟨b, e, r', s', h1, _, h2⟩ := step_inframe ao skip st maxF rest r s cx none k hk _
-      (Or.inl ⟨wire, fs, hc, hin, hst, htail, rfl⟩)
-    exact Or.inl ⟨b, e, r', s', h1, h2⟩
+  | mid wire _ hc hin hst htail =>
+    obtain ⟨b, e, r', s', h1, _, h2⟩ := step_inframe ao skip st maxF rest r s cx none k hk _ fs0
+      (Or.inl ⟨wire, hc, hin, hst, htail, rfl⟩)
+    refine Or.inl ⟨b, e, r', s', h1, ?_⟩
+    rcases h2 with ⟨he, rem', g1, g2, g3⟩ | ⟨he, g1, g2, g3, g4, _⟩
+    · exact Or.inl ⟨he, rem', fs0, g1, g2, g3⟩
+    · exact Or.inr ⟨he, g1, g2, g3, g4⟩
   | lastFrame wire hc hin hst =>
-    obtain ⟨b, e, r', s', h1, _, h2⟩ := step_inframe ao skip st maxF rest r s cx none k hk _
-      (Or.inr ⟨wire, hc, hin, hst, rfl⟩)
-    exact Or.inl ⟨b, e, r', s', h1, h2⟩
-  | between fs hc hhas hst hb htail =>
+    obtain ⟨b, e, r', s', h1, _, h2⟩ := step_inframe ao skip st maxF rest r s cx none k hk _ []
+      (Or.inr ⟨rfl, wire, hc, hin, hst, rfl⟩)
+    refine Or.inl ⟨b, e, r', s', h1, ?_⟩
+    rcases h2 with ⟨he, rem', g1, g2, g3⟩ | ⟨he, g1, g2, g3, g4, _⟩
+    · exact Or.inl ⟨he, rem', [], g1, g2, g3⟩
+    · exact Or.inr ⟨he, g1, g2, g3, g4⟩
+  | between _ hc hhas hst hb htail =>
     have hfrag : r.fragmented = true := by simp [Rd.fragmented, hst, hc.stF]
     have hw0 : weight r s = mu s := by simp [weight, hhas]
     cases htail with
@@ -809,7 +834,7 @@ theorem step (ao skip : Bool) (st maxF : Nat) (rest : Bytes) (r : Rd) (s : Src) 
         unfold Accepts; rw [hc.skip, hst, hc.maxF]; exact hacc
       obtain ⟨s3, hnf, hb3, ht3, hmu3⟩ := nextFrame_ctl r s s1 cx f (encodeFs fs' ++ rest) hrh hacc' hc.ext hctl hfrag hb1 hok.len ht1
       have hrd := read_skip r (skipCtl r f.h) s s3 cx cx none k (some f.h) hhas hfrag hnf (by simp [skipCtl, hhas])
-      refine Or.inl ⟨[], none, skipCtl r f.h, s3, by simpa using hrd, Or.inl ⟨rfl, dataPlain fs', ?_, ?_, ?_⟩⟩
+      refine Or.inl ⟨[], none, skipCtl r f.h, s3, by simpa using hrd, Or.inl ⟨rfl, dataPlain fs', fs', ?_, ?_, ?_⟩⟩
       · simp [dataPlain, hctl]
       · refine Sync.between _ s3 fs' ?_ (by simp [skipCtl, hhas]) (by simp [skipCtl, hst]) hb3 ht'
         exact common_of skip st maxF hc _ _ (by simp [skipCtl]) (by simp [skipCtl]) (by simp [skipCtl]) (by simp [skipCtl]) ht3
@@ -831,11 +856,11 @@ theorem step (ao skip : Bool) (st maxF : Nat) (rest : Bytes) (r : Rd) (s : Src) 
         ⟨by simp [enter], by simp [enter, hc.u8], hb1, by simp [enter, hok.len], by rw [hb1]; exact hwt, by simp [enter]; exact hok.mwf, ht1⟩
       have hst5 : (enter r f.h).state = st := by simp [enter, hfin, hst, hc.stSet]
       obtain ⟨b, e, r', s', h1, hmle, h2⟩ := step_inframe ao skip st maxF rest (enter r f.h) s1 cx none k hk
-        (plainOf (enter r f.h) f.wire ++ dataPlain fs') (Or.inl ⟨f.wire, fs', hc5, hin5, hst5, ht', rfl⟩)
+        (plainOf (enter r f.h) f.wire ++ dataPlain fs') fs' (Or.inl ⟨f.wire, hc5, hin5, hst5, ht', rfl⟩)
       have hpl : plainOf (enter r f.h) f.wire = f.plain := rfl
       refine Or.inl ⟨b, e, r', s', by rw [hrd]; exact h1, ?_⟩
-      rcases h2 with ⟨he, rem', hr1, hr2, hr3⟩ | ⟨he, hr1, hr2, hr3, hr4⟩
-      · refine Or.inl ⟨he, rem', ?_, hr2, ?_⟩
+      rcases h2 with ⟨he, rem', hr1, hr2, hr3⟩ | ⟨he, hr1, hr2, hr3, hr4, _⟩
+      · refine Or.inl ⟨he, rem', fs', ?_, hr2, ?_⟩
         · simp only [dataPlain, hdata, Bool.false_eq_true, if_false]; rw [← hpl]; exact hr1
         · rw [hw0]
           have : weight r' s' < mu s1 + 1 := by simpa [weight, enter] using hr3
@@ -859,11 +884,11 @@ theorem step (ao skip : Bool) (st maxF : Nat) (rest : Bytes) (r : Rd) (s : Src) 
         ⟨by simp [enter], by simp [enter, hc.u8], hb1, by simp [enter, hok.len], by rw [hb1]; exact hwt, by simp [enter]; exact hok.mwf, ht1⟩
       have hst5 : (enter r f.h).state = stClear st stFragmented := by simp [enter, hfin, hst]
       obtain ⟨b, e, r', s', h1, hmle, h2⟩ := step_inframe ao skip st maxF rest (enter r f.h) s1 cx none k hk
-        (plainOf (enter r f.h) f.wire) (Or.inr ⟨f.wire, hc5, hin5, hst5, rfl⟩)
+        (plainOf (enter r f.h) f.wire) [] (Or.inr ⟨rfl, f.wire, hc5, hin5, hst5, rfl⟩)
       have hpl : plainOf (enter r f.h) f.wire = f.plain := rfl
       refine Or.inl ⟨b, e, r', s', by rw [hrd]; exact h1, ?_⟩
-      rcases h2 with ⟨he, rem', hr1, hr2, hr3⟩ | ⟨he, hr1, hr2, hr3, hr4⟩
-      · refine Or.inl ⟨he, rem', ?_, hr2, ?_⟩
+      rcases h2 with ⟨he, rem', hr1, hr2, hr3⟩ | ⟨he, hr1, hr2, hr3, hr4, _⟩
+      · refine Or.inl ⟨he, rem', [], ?_, hr2, ?_⟩
         · simp only [dataPlain, hdata, Bool.false_eq_true, if_false, List.append_nil]; rw [← hpl]; exact hr1
         · rw [hw0]
           have : weight r' s' < mu s1 + 1 := by simpa [weight, enter] using hr3
@@ -898,24 +923,24 @@ def reads : Rd → Src → Ctx → List Nat → Option (Bytes × Option RErr × 
     (io.EOF), or — when the known part of the message has an open end — after the first `ks1` of
     them everything known has been delivered without error and the reader stands at that end. -/
 theorem reads_sync (ao skip : Bool) (st maxF : Nat) (rest : Bytes) (ks : List Nat) (hpos : ∀ k ∈ ks, 0 < k)
-    (r : Rd) (s : Src) (cx : Ctx) (rem : Bytes) (hs : Sync ao skip st maxF rest r s rem) :
+    (r : Rd) (s : Src) (cx : Ctx) (rem : Bytes) (fs0 : List WFrame) (hs : Sync ao skip st maxF rest r s rem fs0) :
     (∃ out e r' s', reads r s cx ks = some (out, e, r', s', cx) ∧
-      ((e = none ∧ ∃ rem', rem = out ++ rem' ∧ Sync ao skip st maxF rest r' s' rem' ∧ weight r' s' + ks.length ≤ weight r s)
+      ((e = none ∧ ∃ rem' fs', rem = out ++ rem' ∧ Sync ao skip st maxF rest r' s' rem' fs' ∧ weight r' s' + ks.length ≤ weight r s)
        ∨ (e = some .eof ∧ rem = out ∧ s'.bytes = rest ∧ Src.Tame s' ∧ Done st r r')))
     ∨ (∃ ks1 k2 ks2 out1 r1 s1, ks = ks1 ++ k2 :: ks2 ∧ reads r s cx ks1 = some (out1, none, r1, s1, cx)
         ∧ rem = out1 ∧ AtEnd ao skip st maxF rest r1 s1 []) := by
-  induction ks generalizing r s rem with
-  | nil => exact Or.inl ⟨[], none, r, s, rfl, Or.inl ⟨rfl, rem, by simp, hs, by simp⟩⟩
+  induction ks generalizing r s rem fs0 with
+  | nil => exact Or.inl ⟨[], none, r, s, rfl, Or.inl ⟨rfl, rem, fs0, by simp, hs, by simp⟩⟩
   | cons k ks ih =>
-    rcases step ao skip st maxF rest r s cx k (hpos k (by simp)) rem hs with ⟨b, e, r1, s1, hrd, hcase⟩ | hend
-    · rcases hcase with ⟨he, rem1, hr1, hs1, hw1⟩ | ⟨he, hr1, hb1, ht1, hd1⟩
+    rcases step ao skip st maxF rest r s cx k (hpos k (by simp)) rem fs0 hs with ⟨b, e, r1, s1, hrd, hcase⟩ | hend
+    · rcases hcase with ⟨he, rem1, fs1, hr1, hs1, hw1⟩ | ⟨he, hr1, hb1, ht1, hd1⟩
       · subst he
-        rcases ih (fun k' hk' => hpos k' (by simp [hk'])) r1 s1 rem1 hs1 with ⟨o, e2, r2, s2, hrd2, hcase2⟩ | ⟨ks1, k2, ks2, o1, r2, s2, hks, hrd2, hrem2, hend2⟩
+        rcases ih (fun k' hk' => hpos k' (by simp [hk'])) r1 s1 rem1 fs1 hs1 with ⟨o, e2, r2, s2, hrd2, hcase2⟩ | ⟨ks1, k2, ks2, o1, r2, s2, hks, hrd2, hrem2, hend2⟩
         · left
           simp only [reads, hrd, hrd2, List.take_length]
           refine ⟨b ++ o, e2, r2, s2, rfl, ?_⟩
-          rcases hcase2 with ⟨he2, rem2, hr2, hs2, hw2⟩ | ⟨he2, hr2, hb2, ht2, hd2⟩
-          · refine Or.inl ⟨he2, rem2, by rw [hr1, hr2, List.append_assoc], hs2, ?_⟩
+          rcases hcase2 with ⟨he2, rem2, fs2, hr2, hs2, hw2⟩ | ⟨he2, hr2, hb2, ht2, hd2⟩
+          · refine Or.inl ⟨he2, rem2, fs2, by rw [hr1, hr2, List.append_assoc], hs2, ?_⟩
             simp only [List.length_cons]; omega
           · refine Or.inr ⟨he2, by rw [hr1, hr2], hb2, ht2, ?_⟩
             have hcfg : r1.skipCheck = r.skipCheck ∧ r1.checkUTF8 = r.checkUTF8 ∧ r1.ext = r.ext ∧ r1.maxFrame = r.maxFrame := by
